@@ -323,4 +323,24 @@ theorem run_prog {fixed : Bool} {n : Nat} : ∀ (sched : List (Nat × List (Nat 
     obtain ⟨i, adv⟩ := e
     exact ih (step_prog h (hb (i, adv) (by simp)) adv) (fun e he => hb e (by simp [he]))
 
+theorem cnt_false (n : Nat) : cnt (fun _ => false) n = 0 := by
+  induction n with
+  | zero => rfl
+  | succ n ih => simp [cnt, ih]
+
+/-- nobody has installed or conflicted yet, every writer stands before its first node-lock attempt
+with a snapshot taken now -/
+theorem prog_of_fresh {n : Nat} {s : State} (he : s.epoch = 0) (hb : n ≤ s.maxRetry)
+    (h : ∀ i, (s.ws i).pc = .atLock ∧ (s.ws i).installed = false ∧ (s.ws i).fetchEpoch = 0 ∧ (s.ws i).retry = 0 ∧
+      validate s (s.ws i).pages = true) : Prog n s := by
+  refine ⟨?_, ?_, ?_, ?_, ?_, ?_, hb, ?_⟩
+  · intro i hp; rw [(h i).1] at hp; cases hp
+  · intro i; rw [(h i).2.2.1, he]; exact Nat.le_refl _
+  · intro i _ _ _; exact (h i).2.2.2.2
+  · intro i; rw [(h i).2.2.2.1]; exact Nat.zero_le _
+  · have : (fun i => (s.ws i).installed) = fun _ => false := by funext i; exact (h i).2.1
+    rw [this, cnt_false, he]
+  · intro i hi; rw [(h i).2.1] at hi; cases hi
+  · intro i; rw [(h i).1]; simp
+
 end Sop.Merge
